@@ -143,7 +143,9 @@ def rule_drop(ctx):
     tasks = [c for c in ctx.prog.children(b) if c.kind == "coroutine"]
     ctx.floor("C10.3", "spawned rollback task", len(tasks), 1)
     for t in tasks:
-        permit_places = [p for p in t.vars.get("permit", []) if p.proj]
+        # the semaphore permit captured by the task, found by its type (not by the variable's name)
+        permit_places = [p for pls in t.vars.values() for p in pls if p.proj and p.local == 1 and isinstance(p.proj[0], list)
+                         and "SemaphorePermit" in (p.proj[0][3] or "")]
         take = calls_to(t, "core::option::Option::take")
         rb = [c for c in sem_calls(t) if c.name == "sqlx_core::transaction::Transaction::rollback"]
         if not ctx.ob("C10.3", "task takes the stored transaction and rolls it back", bool(take and rb and permit_places),
